@@ -17,7 +17,7 @@ const bdg = "github.com/dgraph-io/badger/v4"
 
 type kvEnt struct {
 	key []*Term
-	val []*Term
+	val Slice // bytes, or a single blob marker
 }
 
 type KVDB struct {
@@ -27,7 +27,7 @@ type KVDB struct {
 
 type kvWrite struct {
 	key []*Term
-	val []*Term
+	val Slice
 	del bool
 }
 
@@ -67,15 +67,16 @@ func (p *Path) keyEq(a, b []*Term) *Term {
 	if len(a) != len(b) {
 		return p.tb.False
 	}
-	c := make([]*Term, 0, len(a))
-	for i := range a {
-		e := p.tb.Eq(a[i], b[i])
-		if e.IsFalse() {
-			return e
-		}
-		c = append(c, e)
+	if len(a) == 0 {
+		return p.tb.True
 	}
-	return p.tb.And(c...)
+	// decide constant mismatches cheaply first
+	for i := range a {
+		if a[i].IsConst() && b[i].IsConst() && a[i] != b[i] {
+			return p.tb.False
+		}
+	}
+	return p.tb.Eq(p.tb.Concat(a...), p.tb.Concat(b...))
 }
 
 func (p *Path) hasPrefix(k, pre []*Term) *Term {
@@ -193,8 +194,26 @@ func termsSlice(ts []*Term) Slice {
 
 // lexLess: a < b as a Bool term.
 func (p *Path) lexLess(a, b []*Term) *Term {
-	c := p.bytesCompare(a, b)
-	return p.tb.Slt(c, p.tb.BV(0, 8))
+	// big-endian byte strings: lexicographic order on the common prefix is the unsigned
+	// order of the concatenations (adjacent extracts re-assemble into the original word)
+	n := min(len(a), len(b))
+	tb := p.tb
+	// skip the equal constant prefix; a constant difference decides the order
+	i := 0
+	for i < n && a[i].IsConst() && b[i].IsConst() {
+		if a[i] != b[i] {
+			return tb.Bool(a[i].val.Cmp(b[i].val) < 0)
+		}
+		i++
+	}
+	if i == n {
+		return tb.Bool(len(a) < len(b))
+	}
+	x, y := tb.Concat(a[i:n]...), tb.Concat(b[i:n]...)
+	if len(a) < len(b) {
+		return tb.Ule(x, y) // equal prefix: the shorter one sorts first
+	}
+	return tb.Ult(x, y)
 }
 
 func registerKVIntrinsics() {
@@ -262,7 +281,7 @@ func registerKVIntrinsics() {
 			if len(key) == 0 {
 				return p.badgerErr("ErrEmptyKey")
 			}
-			t.writes = append(t.writes, &kvWrite{key: key, val: sliceTerms(a[2])})
+			t.writes = append(t.writes, &kvWrite{key: key, val: cloneSlice(a[2])})
 			return Iface{}
 		},
 		tx + "SetEntry": func(p *Path, _ *ssa.Function, a []Value) Value {
@@ -398,17 +417,23 @@ func registerKVIntrinsics() {
 			return termsSlice(opaqueOf(p, a[0], "kvitem").data.(*kvEnt).key)
 		},
 		im + "ValueCopy": func(p *Path, _ *ssa.Function, a []Value) Value {
-			return Tuple{termsSlice(opaqueOf(p, a[0], "kvitem").data.(*kvEnt).val), Iface{}}
+			e := opaqueOf(p, a[0], "kvitem").data.(*kvEnt)
+			if dst, ok := a[1].(Slice); ok && dst != nil && cap(dst) >= len(e.val) && len(e.val) > 0 {
+				// ValueCopy(dst) reuses dst's backing store when it is large enough
+				copy(dst[:len(e.val)], e.val)
+				return Tuple{dst[:len(e.val)], Iface{}}
+			}
+			return Tuple{cloneSlice(e.val), Iface{}}
 		},
 		im + "ValueSize": func(p *Path, _ *ssa.Function, a []Value) Value {
 			return p.i64(uint64(len(opaqueOf(p, a[0], "kvitem").data.(*kvEnt).val)))
 		},
 		im + "Value": func(p *Path, _ *ssa.Function, a []Value) Value {
 			e := opaqueOf(p, a[0], "kvitem").data.(*kvEnt)
-			return callFn(p, a[1], termsSlice(e.val))
+			return callFn(p, a[1], cloneSlice(e.val))
 		},
 		bdg + ".NewEntry": func(p *Path, _ *ssa.Function, a []Value) Value {
-			return opaquePtr("kventry", &kvEnt{key: sliceTerms(a[0]), val: sliceTerms(a[1])})
+			return opaquePtr("kventry", &kvEnt{key: sliceTerms(a[0]), val: cloneSlice(a[1])})
 		},
 		"(*" + bdg + ".Entry).WithTTL": func(p *Path, _ *ssa.Function, a []Value) Value { return a[0] },
 		rtPkg + ".KVConflicts": func(p *Path, _ *ssa.Function, a []Value) Value {
@@ -419,4 +444,11 @@ func registerKVIntrinsics() {
 	for k, v := range m {
 		intrinsics[k] = v
 	}
+}
+
+func cloneSlice(v Value) Slice {
+	s, _ := v.(Slice)
+	out := make(Slice, len(s))
+	copy(out, s)
+	return out
 }
